@@ -26,7 +26,7 @@ T = {
 'C10-A': ('C10', "after a batch only the file of the last planned block is flushed", "SyncEach, batch spanning two WAL files, old file not O_SYNC (mmap), power loss after the acknowledgement", [('C10','quick','c10.*')], ''),
 'C10-B': ('C10', "WalIndex::persist syncs the directory only when the rename created the entry", "StrictlyAtOnce consuming read other than the first, power loss before an unrelated directory sync", [('C10','quick','c10.*')], ''),
 'C11-A': ('C11', "recovery drops the `next_block_start > block_offset` condition: a damaged field gives span 0 and the scan never advances", "next_block_start of a block's first header damaged to a value <= the block's offset", [('C11','quick','c11.nonterm / c11.hang')], ''),
-'C11-B': ('C11', "Block::read compares the in-block end offset with the block's end in the file", "mmap backend, block in the upper half of its file, damaged read_size pushing the payload read past EOF", [], 'not detected before, and no longer a violation after, the fix 5105f63 (reads past the end of the mapping return zeros): the boundary-value mutations added while chasing it found the same panic class on the unchanged tree (truncate + damaged length prefix), which was repaired; with that repair this change only admits reads that fail their checksum'),
+# C11-B (laxer bound in Block::read; needed an mmap read past EOF to panic) was dropped: since the repairs 5105f63/0b669dd a read past the end of the mapping yields zeros, its demonstration passes with the change applied, so it no longer breaks C11
 'C12-A': ('C12', "batch read planning marks every sealed block it plans to its end as consumed", "peek / capped read reaching the end of a sealed block that is the last unconsumed block of a full file, reclaimer pass, reopen", [('C12','quick','c12.removed_unconsumed'),('C02','quick','c02.reclaim_marked (marked_unconsumed>0)')], 'C02 sees it only since the listed peek finding was narrowed with marked_unconsumed'),
 'C12-B': ('C12', "get_next_available_block no longer counts a new topic's first block in its file's total", "file in which a topic was created, fully allocated, all but that many blocks consumed, reclaimer pass", [('C12','quick','c12.removed_unconsumed')], ''),
 'C13-A': ('C13', "fallback directory hash taken over the sanitized key", "two keys made of disallowed characters only, same character count", [('C13','quick','c13.differs_from_solo')], 'missed until such key pairs were added to the instance specifications'),
